@@ -7,7 +7,7 @@ ID = "C05"
 RULE = ("case = (loop program composed from R7RS 3.5 tail contexts, nesting <= 3, self/mutual recursion, fixed/rest/optional arity, apply; "
         "or a non-tail recursion of drawn depth -- plain, through apply / call-with-values, inside a Scheme callback of a C procedure (sort comparator, hash function) -- or one call spreading an n-element list) x (stack ceiling variant: tiny=32768 slots / default=1024000 slots, run in the main "
         "thread or in green threads with tape-chosen slice lengths, collection points incl. right after heap/stack growth, interrupt at a "
-        "tape-chosen tick). A foreign probe called from the loop body records the VM-published stack top and the stack object length. "
+        "tape-chosen tick). A foreign probe called from the loop body records the VM-published stack top and the stack object length; the tick monitor records the largest stack object (an out-of-stack error is accepted only once a stack has reached the ceiling). "
         "Non-trivial: a tail loop of >= 20 x ceiling iterations (tiny) or >= 200000 (default) that was sampled >= 8 times, or a recursion "
         "that crossed at least one stack doubling; distinct = event-log hash.")
 ASSUMPTIONS = [
